@@ -4,9 +4,14 @@
 EXTENDS PeerInput, Json, SequencesExt
 
 ASSUME ndJsonSerialize("alphabet.ndjson", SetToSeq({[lab |-> s.lab, node |-> s.node] : s \in Alphabet \cup Alphabet2}))
-ASSUME ndJsonSerialize("seqs.ndjson", SetToSeq(SeqScenarios \cup Singles2))
+(* the classes of SeqScenarios are pairwise disjoint (MCPeerInput checks it): they are emitted *)
+(* one after the other, the big union is never normalised                                    *)
+RECURSIVE Cat(_, _)
+Cat(ss, i) == IF i > Len(ss) THEN <<>> ELSE SetToSeq(ss[i]) \o Cat(ss, i + 1)
+AllSeqs == Cat(SeqClasses \o <<Singles2>>, 1)
+ASSUME ndJsonSerialize("seqs.ndjson", AllSeqs)
 ASSUME ndJsonSerialize("replies.ndjson", SetToSeq(ReplyScenarios))
-ASSUME PrintT(<<"EMITTED", Cardinality(Alphabet) + Cardinality(Alphabet2), Cardinality(SeqScenarios) + Cardinality(Singles2),
+ASSUME PrintT(<<"EMITTED", Cardinality(Alphabet) + Cardinality(Alphabet2), NSeqScenarios + Cardinality(Singles2),
                 Cardinality(ReplyScenarios)>>)
 
 EInit == /\ n = 0 /\ cfg = "listen" /\ pos = 0 /\ eof = FALSE /\ served = "running" /\ ncalls = 0 /\ nret = 0
